@@ -212,6 +212,14 @@ for root, be in (('c01_norm_evplus', 'sat'), ('c01_norm_evstar', 'z3')):
       desc='normalize_%s from the real forest.cc on a real full unpacked node of size 3: children symbolic handles (0 = transparent), edge values symbolic (%s)' % (
           'evplus<long>' if 'plus' in root else 'evstar<float>', '|v| < 2^60' if 'plus' in root else 'non-zero finite floats'))
 
+# ---------------------------------------------------------------- C04 (L1: terminal cases / short cuts of the set operations under every rule combination)
+for opn, nm in ((0, 'union'), (1, 'intersection'), (2, 'difference'), (3, 'complement')):
+    J('C04', 'c04_%s' % nm, 'c04_setops.cc', 'c04_setops', units=['edge_value.cc', 'ct_entry_type.cc', 'compute_table.cc', 'node_headers.cc', 'arrays.cc', 'memstats.cc', 'statset.cc', 'error.cc'],
+      defines={'OP': opn}, gxx_units=['ALL'], gxx_exclude=['operations/%s.cc' % nm], gxx_extra=['-Wl,--allow-multiple-definition'],
+      unwind=10, timeout=1500, covers=[1, 2, 3],
+      desc='%s (real operations/%s.cc: constructor flags + terminal cases of _compute): operands 0 / true / non-terminal, same or different forests, every reduction-rule combination '
+           '(sets: fully, quasi; relations: fully, quasi, identity), level L in [-3,3], any incoming index; judged pointwise under the rules\' semantics of skipped levels; recursion cut' % (nm, nm))
+
 # ---------------------------------------------------------------- C07 (L2: real compute table over real node headers)
 C07_UNITS = ['storage/ct_styles.cc', 'compute_table.cc', 'ct_entry_type.cc', 'ct_entry_key.cc', 'ct_entry_result.cc', 'ct_vector.cc', 'ct_initializer.cc',
              'node_headers.cc', 'arrays.cc', 'memory_managers/freelists.cc', 'memory.cc', 'memstats.cc', 'statset.cc', 'error.cc']
